@@ -1,0 +1,21 @@
+//go:build verif
+
+package test
+
+import (
+	"github.com/thought-machine/please/src/core"
+)
+
+// VerifParseResults parses a set of test result files' contents.
+func VerifParseResults(data [][]byte) (core.TestSuite, error) {
+	return parseTestResults(data)
+}
+
+// VerifParseResultsDir reads and parses every result file in a directory.
+func VerifParseResultsDir(dir string) (core.TestSuite, error) {
+	data, err := readTestResultsDir(dir)
+	if err != nil {
+		return core.TestSuite{}, err
+	}
+	return parseTestResults(data)
+}
